@@ -24,6 +24,8 @@ import (
 	"github.com/caddyserver/caddy/v2"
 	_ "github.com/caddyserver/caddy/v2/modules/caddyevents"
 	"github.com/caddyserver/caddy/v2/modules/caddyhttp"
+	_ "github.com/caddyserver/caddy/v2/modules/caddyhttp/headers"
+	_ "github.com/caddyserver/caddy/v2/modules/caddyhttp/intercept"
 	_ "github.com/caddyserver/caddy/v2/modules/caddyhttp/push"
 	_ "github.com/caddyserver/caddy/v2/modules/caddyhttp/reverseproxy"
 	_ "github.com/caddyserver/caddy/v2/modules/caddyhttp/reverseproxy/fastcgi"
@@ -107,6 +109,8 @@ type script struct {
 	tset   hdrTab // response headers a handler sets (exact keys)
 	tup    hdrTab // upstream response headers (exact keys; on the wire for rl)
 
+	attempts int // round trips so far
+
 	// observed by the probes while the request is served
 	tmid, tout, tupo, tresp hdrTab
 }
@@ -142,7 +146,7 @@ func parseSite(f []string) (*script, [4]hdrTab, bool) {
 	}
 	sc.route = f[5]
 	switch sc.route {
-	case "ok", "err", "herr", "px", "pxe", "rl", "rle", "fcg":
+	case "ok", "err", "herr", "px", "pxe", "rl", "rle", "fcg", "up", "rlu", "hr", "rt", "ic":
 	default:
 		return nil, obs, false
 	}
@@ -295,8 +299,15 @@ func (t *Transport) RoundTrip(req *http.Request) (*http.Response, error) {
 		return nil, errors.New("no script")
 	}
 	sc.tout = cloneTab(req.Header)
+	sc.attempts++
 	switch sc.route {
-	case "px":
+	case "rt":
+		if sc.attempts == 1 {
+			// the first attempt fails; reverse_proxy retries the GET (load_balancing.retries = 1)
+			return nil, errors.New("verif first attempt fails")
+		}
+		fallthrough
+	case "px", "hr":
 		hdr, unann, ann := splitTrailers(sc.tup)
 		resp := &http.Response{StatusCode: sc.status, Status: strconv.Itoa(sc.status) + " X", Proto: "HTTP/1.1", ProtoMajor: 1, ProtoMinor: 1,
 			Header: hdr.header(), ContentLength: -1, Request: req}
@@ -329,7 +340,13 @@ func (t *Transport) RoundTrip(req *http.Request) (*http.Response, error) {
 			}
 		}
 		return resp, nil
-	case "rl", "rle":
+	case "up":
+		// 101 Switching Protocols with the scripted (credential) headers; the "connection" ends at once
+		resp := &http.Response{StatusCode: http.StatusSwitchingProtocols, Status: "101 Switching Protocols", Proto: "HTTP/1.1", ProtoMajor: 1, ProtoMinor: 1,
+			Header: sc.tup.header(), Body: closedConn{}, Request: req}
+		sc.tupo = cloneTab(resp.Header)
+		return resp, nil
+	case "rl", "rle", "rlu":
 		r2 := req.Clone(req.Context())
 		r2.URL.Scheme, r2.URL.Host, r2.RequestURI = "http", upstreamAddr, ""
 		if sc.route == "rle" {
@@ -337,6 +354,9 @@ func (t *Transport) RoundTrip(req *http.Request) (*http.Response, error) {
 		}
 		r2.Header.Set("X-Verif-Up", hex.EncodeToString([]byte(encHdr(sc.tup))))
 		r2.Header.Set("X-Verif-Status", strconv.Itoa(sc.status))
+		if sc.route == "rlu" {
+			r2.Header.Set("X-Verif-Status", "101")
+		}
 		resp, err := realTransport.RoundTrip(r2)
 		if err != nil {
 			return nil, err
@@ -350,7 +370,35 @@ func (t *Transport) RoundTrip(req *http.Request) (*http.Response, error) {
 	return nil, errors.New("verif transport error")
 }
 
+// closedConn is the upstream side of an upgraded connection that is closed immediately.
+type closedConn struct{}
+
+func (closedConn) Read([]byte) (int, error)    { return 0, io.EOF }
+func (closedConn) Write(p []byte) (int, error) { return len(p), nil }
+func (closedConn) Close() error                { return nil }
+
 func upstreamHandler(w http.ResponseWriter, r *http.Request) {
+	if r.Header.Get("X-Verif-Status") == "101" {
+		// a raw 101 answer over the hijacked connection, header names exactly as scripted
+		var t hdrTab
+		if b, err := hex.DecodeString(r.Header.Get("X-Verif-Up")); err == nil {
+			t, _ = decHdr(string(b))
+		}
+		conn, buf, err := http.NewResponseController(w).Hijack()
+		if err != nil {
+			return
+		}
+		defer conn.Close()
+		buf.WriteString("HTTP/1.1 101 Switching Protocols\r\n")
+		for _, k := range sortedKeys(t) {
+			for _, v := range t[k] {
+				buf.WriteString(k + ": " + v + "\r\n")
+			}
+		}
+		buf.WriteString("\r\n")
+		buf.Flush()
+		return
+	}
 	status, _ := strconv.Atoi(r.Header.Get("X-Verif-Status"))
 	if status < 200 || status > 599 {
 		status = 200
@@ -407,6 +455,12 @@ func serverJSON(port int, creds, errRoutes bool) string {
      "headers":{"set":{"Cookie":["{http.request.header.Cookie}"],"Authorization":["{http.request.header.Authorization}"],"X-Pushed":["1"]}}},
     {"handler":"rewrite","strip_path_prefix":"/zz"}]},
   {"match":[{"path":["/px/*","/rn/px/*"]}],"handle":[{"handler":"reverse_proxy","transport":{"protocol":"verif_c20"},"upstreams":[{"dial":"127.0.0.1:1"}]}]},
+  {"match":[{"path":["/rt/*","/rn/rt/*"]}],"handle":[{"handler":"reverse_proxy","transport":{"protocol":"verif_c20"},"upstreams":[{"dial":"127.0.0.1:1"}],
+     "load_balancing":{"retries":1,"try_interval":1000000}}]},
+  {"match":[{"path":["/hr/*","/rn/hr/*"]}],"handle":[{"handler":"reverse_proxy","transport":{"protocol":"verif_c20"},"upstreams":[{"dial":"127.0.0.1:1"}],
+     "handle_response":[{"match":{"status_code":[2,3,4,5]},"routes":[{"handle":[{"handler":"copy_response_headers"},{"handler":"copy_response"}]}]}]}]},
+  {"match":[{"path":["/ic/*","/rn/ic/*"]}],"handle":[{"handler":"intercept",
+     "handle_response":[{"match":{"status_code":[2,3,4,5]},"routes":[{"handle":[{"handler":"headers","response":{"set":{"X-Intercepted":["1"]}}},{"handler":"static_response","body":"i"}]}]}]}]},
   {"handle":[{"handler":"verif_c20_probe","pos":"final"}]}
  ]`
 	errs := ""
@@ -500,6 +554,25 @@ func Cleanup() {
 	}
 }
 
+// maskRandomKey: for a websocket over HTTP/2 reverse_proxy invents a random Sec-WebSocket-Key.
+func maskRandomKey(t hdrTab) {
+	if _, ok := t["Sec-WebSocket-Key"]; ok {
+		t["Sec-WebSocket-Key"] = []string{"<random>"}
+	}
+}
+
+// hijackRecorder is a response recorder whose connection can be hijacked (protocol upgrades): the
+// "client" side of the connection is closed at once.
+type hijackRecorder struct {
+	*httptest.ResponseRecorder
+}
+
+func (h *hijackRecorder) Hijack() (net.Conn, *bufio.ReadWriter, error) {
+	c1, c2 := net.Pipe()
+	c2.Close()
+	return c1, bufio.NewReadWriter(bufio.NewReader(c1), bufio.NewWriter(c1)), nil
+}
+
 // ---------------------------------------------------------------- running one scenario
 
 type siteObs struct {
@@ -527,8 +600,14 @@ func (sc *script) path() string {
 		p = "/rn"
 	}
 	switch sc.route {
-	case "px", "pxe", "rl", "rle", "fcg":
+	case "px", "pxe", "rl", "rle", "fcg", "up", "rlu":
 		return p + "/px/x"
+	case "hr":
+		return p + "/hr/x" // reverse_proxy with handle_response routes (copy_response_headers + copy_response)
+	case "rt":
+		return p + "/rt/x" // reverse_proxy with one retry
+	case "ic":
+		return p + "/ic/x" // intercept handler around the responding handler
 	}
 	return p + "/h/x"
 }
@@ -558,12 +637,18 @@ func execSite(sc *script) siteObs {
 		return siteObs{err: "bad-request"}
 	}
 	req.Header = sc.tin.header()
+	h2ws := len(sc.tin[":protocol"]) > 0
+	if h2ws {
+		// extended CONNECT (RFC 8441): a websocket over HTTP/2; reverse_proxy turns it into an HTTP/1.1 upgrade
+		req.Method, req.Proto, req.ProtoMajor, req.ProtoMinor = http.MethodConnect, "HTTP/2.0", 2, 0
+	}
 	req.RemoteAddr = sc.remote
 	ctx, cancel := context.WithTimeout(context.WithValue(context.Background(), scriptKey{}, sc), 10*time.Second)
 	defer cancel()
 	req = req.WithContext(ctx)
-	rec := httptest.NewRecorder()
+	rec := &hijackRecorder{ResponseRecorder: httptest.NewRecorder()}
 	sc.tmid, sc.tout, sc.tupo, sc.tresp = nil, nil, nil, nil
+	sc.attempts = 0
 	resetSinks()
 	func() {
 		// net/http recovers http.ErrAbortHandler (reverse_proxy panics with it when the upstream body
@@ -583,6 +668,9 @@ func execSite(sc *script) siteObs {
 	// when a handler merges several spellings of one header (Header.Add while ranging over a map)
 	// the order of the merged values follows Go's map iteration order: compare value multisets
 	sc.tresp = sortVals(sc.tresp)
+	if h2ws {
+		maskRandomKey(sc.tout)
+	}
 	obs := siteObs{logs: logs}
 	for _, line := range strings.Split(logs["json"], "\n") {
 		if line == "" {
@@ -604,6 +692,9 @@ func execSite(sc *script) siteObs {
 			}
 			if obj == "resp_headers" {
 				sortVals(t)
+			}
+			if h2ws && logger == "http.handlers.reverse_proxy" && obj == "request>headers" {
+				maskRandomKey(t)
 			}
 			obs.entries = append(obs.entries, logger+"/"+obj+"="+encHdr(t))
 		}
@@ -659,6 +750,13 @@ func runSite(f []string) core.Outcome {
 		}
 		o.Impl = "table-mismatch"
 		o.Tags = append(o.Tags, "table-mismatch")
+	}
+	for msg, tag := range map[string]string{`"msg":"upgrading connection"`: "site:upgraded", `"msg":"handling response"`: "site:handle_response-ran",
+		`"msg":"connection closed"`: "site:upgrade-connection-closed", `"http_version":2`: "site:upgraded-h2-extended-connect", `unexpected protocol via Upgrade`: "site:upgrade-refused",
+		`"X-Intercepted"`: "site:intercepted"} {
+		if strings.Contains(obs.logs["json"], msg) {
+			o.Tags = append(o.Tags, tag)
+		}
 	}
 	siteOracle(&o, sc, obs)
 	return o
